@@ -138,6 +138,7 @@ func startWatchdog(rep *kit.Report) {
 					rep.Class("stall-not-reproduced-in-a-fresh-process")
 				}
 				rep.Capped("worker stopped after a parse that did not return in 10 s")
+				os.RemoveAll(dir)
 				rep.Finish()
 			}
 		}
@@ -575,6 +576,12 @@ func got(blocks []casketfile.ServerBlock, ref []blockAST) string {
 	return b.String()
 }
 
+// what this worker last wrote into each import file of part (b)
+var (
+	written = map[string]string{}
+	subMade bool
+)
+
 func partB(rep *kit.Report) {
 	subs := [][][]string{nil, {{"s1", "a"}}, {{"s1"}, {"s2", "b c", "q\"q"}}, {}}
 	var argLists [][]string
@@ -688,9 +695,16 @@ func partB(rep *kit.Report) {
 						}
 						main, files := lay.render(ast, split, mode)
 						sub := filepath.Join(dir, fmt.Sprintf("rt%d", *kit.FlagWorker))
-						os.MkdirAll(sub, 0o755)
+						if !subMade {
+							os.MkdirAll(sub, 0o755)
+							subMade = true
+						}
 						for k, v := range files {
+							if old, ok := written[k]; ok && old == v {
+								continue // the file already holds this text (most import files repeat from case to case)
+							}
 							os.WriteFile(filepath.Join(sub, k), []byte(v), 0o644)
+							written[k] = v
 						}
 						res := parseGuarded(rep, filepath.Join(sub, "Casketfile"), main)
 						rep.Eval(1)
@@ -820,6 +834,11 @@ func main() {
 	}
 	runtime.GOMAXPROCS(2) // (a worker parses one text at a time; 16 workers run side by side)
 	dir = kit.TempDir("c10")
+	if d, err := os.MkdirTemp("/dev/shm", "verif-c10-"); err == nil {
+		// the import files are rewritten a million times: keep them in memory when the system offers it
+		os.RemoveAll(dir)
+		dir = d
+	}
 	defer os.RemoveAll(dir)
 	known := setupFiles()
 	startWatchdog(rep)
